@@ -480,9 +480,16 @@ def r12_merge_operand_order(ctx):
         seen.add(fn["line"])
         body = fn["body"]
 
-        def root(e):
+        decls = local_decls(body)
+
+        def root(e, depth=0):
             """the parameter (0 = s, 1 = t) an argument expression is taken from, else None"""
             hits = set()
+            es = strip(e)
+            if isinstance(es, dict) and es.get("k") == "ref" and es.get("rk") == "local" and depth < 3:
+                d = decls.get(es.get("id"))
+                if d is not None and "i" in d and not writes_to(body, es["id"]):
+                    return root(d["i"], depth + 1)
             for x in walk(e):
                 if isinstance(x, dict) and x.get("k") == "ref":
                     for i in (0, 1):
